@@ -298,8 +298,9 @@ DoMark(s, c, ids, mk) ==
            drop(a) == mk = "def" /\ a \in ids /\ WcOn(s)
        IN [s EXCEPT !.res = "ok", !.m = m2,
                     !.wc = [a \in Ids |-> IF drop(a) THEN FALSE ELSE @[a]],
-                    \* forced mark of a LOCKED object: it stays available, its cache copy is dropped at once
-                    !.kf15 = [a \in Ids |-> IF drop(a) /\ s.wc[a] /\ ~s.blob[a] /\ ExistsC(m2, a, s.epoch) = "true"
+                    \* forced mark: the cache copy is dropped at once, the record stays until GC; a lock (already there or
+                    \* stored later) overrides the mark and makes the record available
+                    !.kf15 = [a \in Ids |-> IF drop(a) /\ s.wc[a] /\ ~s.blob[a] /\ s.m.stored[a]
                                              THEN "marklocked" ELSE @[a]]]
 
 \* Shard.InhumeContainer
